@@ -11,7 +11,7 @@ import (
 
 func init() {
 	register("C12", propMeta{
-		Explanation: "Types + E-GUARD + E-PROV + E-CONST + E-PANIC on common/messages and common/bridgefingerprint. O-1 one schema per message: for each of the six messages the Go type handed to json.Marshal by the encoder is the struct type the decoder unmarshals into (a *T of that T, not a pointer to a pointer, so JSON null cannot leave a nil message), and the client messages share the ClientVersion framing. O-2 success only through the validations: a nil-error return of each decoder is reachable only through the certifying edge of each validation - major version == \"1\" (proxy poll, answer), first line == ClientVersion and two parts present (client poll), Sid != \"\", Answer != \"\", Offer != \"\", NAT in the accepted set, FingerprintFromHexString err == nil, fingerprint length in {20, 32} with FingerprintFromHexString returning nothing but FingerprintFromBytes' verdict, Status != \"\", 'client match' implies Offer != \"\", not (Error == \"\" and Answer == \"\"). O-3 defaults: absent NAT maps to unknown, absent fingerprint to the default bridge fingerprint (same constant in encoder and decoder, equal to the fingerprint of the broker's built-in bridge line), unrecognised proxy type to ProxyUnknown, relay-pattern awareness is AcceptedRelayPattern != nil. O-4 no termination construct in the two packages (strings.Split(...)[0] is a table row). O-5 fields travel verbatim: every encoder stores its parameters unmodified into the message struct and every decoder returns the decoded fields unmodified apart from the documented defaults. Added after the second seeding round: O-3 DecodePollResponseWithRelayURL hands on \"unknown\" for an absent NAT type on every success return (the raw field may be returned only behind its != \"\" edge); the NAT vocabulary test may live in a same-package helper that receives the NAT field; success returns are identified by may-be-nil analysis of the error result rather than by a literal nil. Added after the third seeding round: a fixed-size buffer handed to hex.Decode is sized from the input (DecodedLen) or the input length is tested first. Added after the fourth seeding round: O-4 also covers constant indexes into strings and slices without a length-establishing edge and methods invoked on possibly-nil errors; O-6 no package-level state in the message codecs (a shared output buffer, a pooled record that is only half reset). Added after the fifth seeding round: O-1 the encoders produce their bytes with encoding/json only (no Sprintf/%q or strconv quoting); the two-parts validation may be an index test. Added after the sixth seeding round and the mutation audit: O-8 the format argument of every printf-style call in the message packages is a constant; O-9 a (value, error) call whose value is used has its error used too (hex.DecodeString returning a valid prefix).",
+		Explanation: "Types + E-GUARD + E-PROV + E-CONST + E-PANIC on common/messages and common/bridgefingerprint. O-1 one schema per message: for each of the six messages the Go type handed to json.Marshal by the encoder is the struct type the decoder unmarshals into (a *T of that T, not a pointer to a pointer, so JSON null cannot leave a nil message), and the client messages share the ClientVersion framing. O-2 success only through the validations: a nil-error return of each decoder is reachable only through the certifying edge of each validation - major version == \"1\" (proxy poll, answer), first line == ClientVersion and two parts present (client poll), Sid != \"\", Answer != \"\", Offer != \"\", NAT in the accepted set, FingerprintFromHexString err == nil, fingerprint length in {20, 32} with FingerprintFromHexString returning nothing but FingerprintFromBytes' verdict, Status != \"\", 'client match' implies Offer != \"\", not (Error == \"\" and Answer == \"\"). O-3 defaults: absent NAT maps to unknown, absent fingerprint to the default bridge fingerprint (same constant in encoder and decoder, equal to the fingerprint of the broker's built-in bridge line), unrecognised proxy type to ProxyUnknown, relay-pattern awareness is AcceptedRelayPattern != nil. O-4 no termination construct in the two packages (strings.Split(...)[0] is a table row). O-5 fields travel verbatim: every encoder stores its parameters unmodified into the message struct and every decoder returns the decoded fields unmodified apart from the documented defaults. Added after the second seeding round: O-3 DecodePollResponseWithRelayURL hands on \"unknown\" for an absent NAT type on every success return (the raw field may be returned only behind its != \"\" edge); the NAT vocabulary test may live in a same-package helper that receives the NAT field; success returns are identified by may-be-nil analysis of the error result rather than by a literal nil. Added after the third seeding round: a fixed-size buffer handed to hex.Decode is sized from the input (DecodedLen) or the input length is tested first. Added after the fourth seeding round: O-4 also covers constant indexes into strings and slices without a length-establishing edge and methods invoked on possibly-nil errors; O-6 no package-level state in the message codecs (a shared output buffer, a pooled record that is only half reset). Added after the fifth seeding round: O-1 the encoders produce their bytes with encoding/json only (no Sprintf/%q or strconv quoting); the two-parts validation may be an index test. Added after the sixth seeding round and the mutation audit: O-8 the format argument of every printf-style call in the message packages is a constant; O-9 a (value, error) call whose value is used has its error used too (hex.DecodeString returning a valid prefix). O-10 a failure branch never runs on into the code for the successful case.",
 		NotDecided:  "JSON fidelity for arbitrary strings and integer ranges (encoding/json, trusted), round-trip equality as a value-level statement.",
 		Assumptions: []string{"encoding/json round-trips exported fields of a struct type through the same struct type"},
 	}, runC12)
@@ -41,6 +41,7 @@ func runC12(c *Ctx) {
 	// the texts a message carries (status, error, answer) are passed on as they are
 	c.checkNoDataAsFormat("O-8 message text is never a format string", msgs)
 	c.checkDecodeErrorsConsumed("O-9 a decoding step's error is part of the verdict", msgs)
+	c.checkErrorBranchesLeave("O-10 a failed step ends the function", msgs)
 	// ---------- O-1 ----------
 	rule1 := "O-1 one schema per message"
 	for _, mp := range msgPairs {
@@ -538,11 +539,44 @@ func (c *Ctx) checkMessageDefaults() {
 			g, okg := addr.(*ssa.Global)
 			return okl && okg && g.Name() == "KnownProxyTypes"
 		})
+		isKnownLookup := func(v ssa.Value) bool {
+			lk, ok := v.(*ssa.Lookup)
+			if !ok {
+				return false
+			}
+			addr, okl := loadAddr(lk.X)
+			g, okg := addr.(*ssa.Global)
+			return okl && okg && g.Name() == "KnownProxyTypes"
+		}
+		knownTrue := boolEdges(fn, true, isKnownLookup)
 		allInstrs(fn, func(in ssa.Instruction) {
 			if st, ok := in.(*ssa.Store); ok {
 				if _, f, okf := fieldOfAddr(st.Addr); okf && f.Name() == "Type" {
 					s, isC := constString(st.Val)
 					okType = isC && s == "unknown" && len(known) > 0 && reachableWithout(fn, st, known) == nil
+					if !okType && len(known) > 0 {
+						// the new value chosen by a branch: "unknown" where the type is not known, the field's own
+						// value where it is
+						all, sawUnknown := true, false
+						for _, leaf := range valueLeaves(strip(st.Val), st) {
+							at := leaf.At
+							if at == nil {
+								at = st
+							}
+							if ls, isK := constString(leaf.V); isK {
+								if ls != "unknown" || reachableWithout(fn, at, known) != nil {
+									all = false
+								}
+								sawUnknown = true
+								continue
+							}
+							if _, lf, okl := fieldLoad(leaf.V); okl && lf.Name() == "Type" && len(knownTrue) > 0 && reachableWithout(fn, at, knownTrue) == nil {
+								continue
+							}
+							all = false
+						}
+						okType = all && sawUnknown
+					}
 				}
 			}
 		})
